@@ -89,7 +89,8 @@ def _prepare_validator_of_literal(
     def validator(
         value: Any,
     ) -> Any:
-        if value in elements:
+        # literal values match only values of the very same type (Literal[1] is not True nor 1.0)
+        if any(type(value) is type(element) and value == element for element in elements):
             return value
 
         else:
